@@ -29,6 +29,9 @@ def datasets():
     for a, b, c in itertools.product(range(4), repeat=3):
         out.append([T[0] + [["D", "g1", "g2", "D"][a]], T[1] + [["D", "g1", "g2", "g1"][b]], T[2] + [["D", "g1", "g2", "g2"][c]]] + ([T[0] + ["g1"]] if a == 3 else []) + ([T[3] + ["D"]] if b == 3 else []))
     out.append([T[0] + ["D"], T[1] + ["D"], T[3] + ["D"]])
+    for g in ("D", "g1"):      # one subject with consecutive values: an increment's insertion is another solution's deletion
+        out.append([[I("n1"), I("p"), N(1), g], [I("n1"), I("p"), N(2), g], [I("n1"), I("p"), N(3), g]])
+        out.append([[I("n1"), I("p"), N(2), g], [I("n1"), I("p"), N(1), g], [I("n2"), I("p"), N(2), g]])
     out.append([])
     return out
 
@@ -121,7 +124,7 @@ def run(out, tier, seed):
     rng = random.Random(seed)
     for ri, r in enumerate(rs):
         for di, d in enumerate(ds):
-            if quick and (ri * 7 + di) % 6 != seed % 6:
+            if quick and (ri * 7 + di) % 2 != seed % 2 and di < 64:
                 continue
             data = {"op": "data", "quads": d, "graphs": ["g1", "g2"]}
             cfgs = [{"facade": "dataset", "union_default": False}, {"facade": "dataset", "union_default": True}, {"facade": "cg", "union_default": True}, {"facade": "cg", "union_default": False}]
